@@ -3,12 +3,14 @@ use std::rc::Rc;
 use crate::{
     cfg::Cfg,
     parser::{HasRegisterSets, InstructionProperties, Register},
-    passes::{DiagnosticManager, LintError, LintPass},
+    passes::{DiagnosticLocation, DiagnosticManager, LintError, LintPass},
 };
 
 pub struct DeadValueCheck;
 impl LintPass for DeadValueCheck {
     fn run(cfg: &Cfg, errors: &mut DiagnosticManager) {
+        // A use that is reachable from several call sites is reported once
+        let mut reported_uses = std::collections::BTreeSet::new();
         for node in cfg {
             // check the out of the node for any uses that
             // should not be there (temporaries)
@@ -26,6 +28,9 @@ impl LintPass for DeadValueCheck {
                     ranges.append(&mut Cfg::error_ranges_for_first_usage(&node, item));
                 }
                 for item in ranges {
+                    if !reported_uses.insert((item.file(), item.range())) {
+                        continue;
+                    }
                     errors.push(LintError::InvalidUseAfterCall(
                         item,
                         Rc::clone(&function),
